@@ -682,7 +682,8 @@ namespace detail {
                     arrow_pos > endl_before_pos &&
                     state_pos != std::string::npos &&
                     state_pos > endl_before_pos &&
-                    cleanup_token(stt().substr(state_pos, arrow_pos - state_pos)) == state_name())
+                    // the whole token left of the arrow, not a suffix of it ("DoorOpen -> [*]" is not about "Open")
+                    cleanup_token(stt().substr(endl_before_pos + 1, arrow_pos - endl_before_pos - 1)) == state_name())
                 {
                     return
                         typename ::boost::mpl::push_back<
